@@ -75,6 +75,8 @@ def collect(ctx):
             d["hang"] = r[2]
         elif k == "WATCHDOG":
             d["watchdog"] = r[2]
+        elif k == "NEG":
+            d["neg"] = (r[2], r[3] if len(r) > 3 else "", vlib.unesc(r[4]) if len(r) > 4 else "")
         elif k == "DONE":
             d["done"] = True
     return progs, feats
@@ -86,6 +88,18 @@ def run(ctx):
     if not ctx.build_harness():
         return ctx.finish("proof", {"evaluations": 0, "distinct_nontrivial": 0}, [], "lake build")
     progs, feats = collect(ctx)
+    negs = {k: d for k, d in progs.items() if "neg" in d}
+    for k in negs:
+        progs.pop(k)
+    n_neg_ok = 0
+    for k, d in negs.items():
+        kind, stage, msg = d["neg"]
+        if kind == "reject" and stage in ("typer", "parser", "lower"):
+            n_neg_ok += 1
+        else:
+            ctx.report({"oracle": "negative", "form": k.split(":", 1)[1], "outcome": kind if kind != "reject" else "rejected-late:" + stage},
+                       "a form goml does not have (generic trait impl, method value, …) is not rejected by the front end",
+                       {"id": k, "src": d.get("src"), "outcome": kind, "stage": stage, "message": msg[:300]})
     main = {k: d for k, d in progs.items() if "watchdog" not in d}
     rec = {k: d for k, d in progs.items() if "watchdog" in d}
 
@@ -262,7 +276,7 @@ def run(ctx):
         "sem_compared": n_sem, "sem_equal": n_sem_eq, "sem_skipped_core_needs_type_passing": n_sem_skip_stuck,
         "sem_skipped_fuel": n_sem_skip_fuel, "sem_with_extern_events(compared)": n_sem_skip_ext,
         "closed_dumps_checked": n_closed, "closed_dumps_ok": n_closed_ok,
-        "termination_cases": n_rec, "termination_hangs": n_rec_hang, "termination_tie_agree": n_rec_tie,
+        "negative_forms_rejected": f"{n_neg_ok}/{len(negs)}", "termination_cases": n_rec, "termination_hangs": n_rec_hang, "termination_tie_agree": n_rec_tie,
         "panics_in_later_stages(owned by C04)": later_panics,
         "rejected_by_typer": sum(1 for d in main.values() if "reject" in d),
         "impl_oracle_failures": len(ctx.violations) + sum(h["count"] for h in ctx.known_hits),
